@@ -180,7 +180,11 @@ static void check_anno(const std::string &prop, const MSignal &s, const Op &o, c
         if (k + got.size() > total) continue;
         bool ok = true;
         for (size_t i = 0; i < got.size() && ok; ++i) ok = same(got[i], s.annos[k + i]);
-        if (ok) { k_found = k; break; }
+        if (ok) {
+            size_t en = total - k; if (o.n > 0) en = std::min<size_t>(en, (size_t) o.n);
+            if (got.size() == en) return;        // a contiguous tail with every annotation >= t and at most one earlier, stopped where asked
+            if (k_found == (size_t) -1) k_found = k;
+        }
     }
     size_t want_tail = total - ge;
     if (k_found == (size_t) -1) {
@@ -244,8 +248,10 @@ static void check_conv(const std::string &prop, const MSignal &s, const Op &o, c
         long double rate = s.p[0];
         long double exact = s2t ? (long double) u[0].utc + (long double) (o.a - u[0].id) * 1073741824.0L / rate
                                 : (long double) u[0].id + (long double) (o.a - u[0].utc) * rate / 1073741824.0L;
+        long double anchor = s2t ? (long double) u[0].utc : (long double) u[0].id, dist = s2t ? (long double) (o.a - u[0].id) : (long double) (o.a - u[0].utc);
+        bool far1 = fabsl(exact - anchor) >= 9007199254740992.0L / 4 || fabsl(dist) >= 9007199254740992.0L / 4;     // same double arithmetic as the multi-entry case (known finding)
         if (fabsl((long double) res - exact) > 1.0L + fabsl(exact) * ldexpl(1, -52))
-            add_violation(v, prop, "conv_single", fmt("sig=%d %s q=%lld got=%lld exact=%.3Lf", s.id, s2t ? "s2t" : "t2s", (long long) o.a, (long long) res, exact), ri);
+            add_violation(v, prop, far1 ? (s2t ? "conv_s2t_far" : "conv_t2s_far") : "conv_single", fmt("sig=%d %s q=%lld got=%lld exact=%.3Lf", s.id, s2t ? "s2t" : "t2s", (long long) o.a, (long long) res, exact), ri);
         return;
     }
     // duplicates in X (equal utc for t2s) make the segment choice ambiguous: find any admissible segment
@@ -302,6 +308,7 @@ static bool signal_matches(const MSignal &s, const std::vector<uint8_t> &got, si
     // storage parameters: must respect the requested values' minimums and be non-zero (exact relations are the decoder's job)
     if (s.id != 0 && (spd == 0 || sdf == 0 || eps == 0 || sumdf == 0)) { snprintf(b, sizeof b, "sig %d: zero storage parameter", s.id); why = b; return false; }
     uint32_t exp_adf = s.p[5] ? s.p[5] : adf, exp_udf = s.p[6] ? s.p[6] : udf;     // defaults are the library's choice
+    if (s.p[5] == 1) exp_adf = adf >= 2 ? adf : 1; if (s.p[6] == 1) exp_udf = udf >= 2 ? udf : 1;   // a factor of 1 cannot decimate: any larger stored value is a legitimate normalisation
     if (s.id != 0 && (adf != exp_adf || udf != exp_udf || adf == 0 || udf == 0)) { snprintf(b, sizeof b, "sig %d: adf/udf %u/%u != %u/%u", s.id, adf, udf, exp_adf, exp_udf); why = b; return false; }
     return true;
 }
